@@ -275,16 +275,13 @@ def run_frame(u: Unit):
         calls = [n for n in ast.walk(fn.node) if isinstance(n, ast.Call) and ast.unparse(n.func) == "run_pipeline"]
         got = [normalise_expr(fn.node, c.keywords, "processor") for c in calls]
         u.static(f"run.frame[{fn.name}]", len(calls) == 1 and got[0] in want, fn.qualname, f"run_pipeline(processor=...) receives {got}")
-    fit = u.fn(f"{FD}::ModelFittingDataTree.fitness")
-    src = ast.unparse(fit.node)
-    ok = "processor = self.update_processor(parameter=parameter_1d, processor=processor)" in src and "run_pipeline(processor=processor" in src \
-        and src.index("processor = self.update_processor") < src.index("run_pipeline(processor=processor")
-    u.static("run.frame[fitness]", ok, fit.qualname, "fitness: the loop variable is rebound to update_processor(...)'s copy before run_pipeline")
-    rp = u.fn(f"{OBS}::Observation.run_pipelines")
-    src = ast.unparse(rp.node)
-    u.static("runs_independent", "processor=processor" in src and "new_processor" not in src, rp.qualname,
-             "run_pipelines passes the caller's processor to every _run_single_pipeline (copies are never chained)")
-    bp = u.fn(f"{FD}::build_processors")
-    src = ast.unparse(bp.node)
-    u.static("calib.build_processors_copy", "new_processor: Processor = deepcopy(processor)" in src and "new_processor.set(" in src, bp.qualname,
-             "build_processors deep-copies the caller's processor for every input-argument set and sets on the copy")
+
+
+# the remaining call sites by symbolic execution of the real functions (shared with C05 / C11):
+#   run_pipelines hands the CALLER's processor to every single run (copies are never chained)          -> C05.run_one_per_entry
+#   fitness simulates update_processor(...)'s copy of processor k, never the list element itself        -> C11.fitness_sum
+#   build_processors makes one deep copy per input-argument value and sets on the copy                   -> C11.build_processors_unit
+from . import C05 as _C05, C11 as _C11  # noqa: E402
+unit("C06", "runs_independent")(_C05.run_one_per_entry)
+unit("C06", "calib.fitness")(_C11.fitness_sum)
+unit("C06", "calib.build_processors")(_C11.build_processors_unit)
